@@ -2490,8 +2490,11 @@ impl<'input, T: Input> Scanner<'input, T> {
 
         // Skip over ':'.
         self.skip_non_blank();
+        // A block collection cannot start after a separation made of tabs only. Inside a flow
+        // collection there are no block collections and tabs are plain separation (`{"a":\t1}`).
         if self.input.look_ch() == '\t'
             && !self.skip_ws_to_eol(SkipTabs::Yes)?.has_valid_yaml_ws()
+            && self.flow_level == 0
             && (self.input.peek() == '-' || self.input.next_is_alpha())
         {
             return Err(ScanError::new_str(
